@@ -329,6 +329,32 @@ def _coverage(repo, rep):
               "falls back to a representation that cannot give a wrong hit",
               construct="stable-name-module-level", where=L.where(sn),
               detail=str(guards))
+    # ... nor does a method bound to an instance: the bound method forwards
+    # the function's __qualname__, the instance that configures it is not in
+    # the name (two expression-type factories obj_a.make / obj_b.make)
+    named = [n for n in ast.walk(sn.node) if isinstance(n, ast.Return)
+             and n.value is not None and "'{}.{}'" in src(n.value)
+             or isinstance(n, ast.Return) and n.value is not None
+             and "%s.%s" in src(n.value)]
+    oks = bool(named)
+    for r_ in named:
+        gs = []
+        for t_, v_ in L.guards_of(r_, sn.node):
+            if isinstance(t_, ast.ExceptHandler):
+                continue
+            gs.append(src(L.inline_locals(sn.node, t_)))
+        # early exits in front of the return count as guards too
+        for st in sn.node.body:
+            if isinstance(st, ast.If) and st.lineno < r_.lineno and any(
+                    isinstance(x, ast.Return) for x in ast.walk(st)):
+                gs.append(src(L.inline_locals(sn.node, st.test)))
+        if not any("__self__" in g for g in gs):
+            oks = False
+    rep.check(oks, "R15.1", sn.qualname, "module.qualname is not used for a "
+              "method bound to an instance (__self__): two instances' "
+              "methods differ in state the name does not show",
+              construct="stable-name-unbound", where=L.where(sn),
+              detail=str(guards))
     # ... the *whole* file name: it is baked into the module (__filename,
     # reported in every error frame), so two files may share a module only
     # if they are the same file
